@@ -1098,7 +1098,7 @@ def entry_built(ctx, report, rule, facts, config):
     report.floor(rule, "Entry constructions decided in context", n_ok, 1, config=config)
 
 
-def _downcast_source(ev, fn, t, x, gmr_key):
+def _downcast_source(ev, fn, t, x, gmr_key, e=None, ast_key=None):
     """Where the value handed to an unchecked downcast to `x` comes from: ('ok', why) | ('param', i) | ('bad', why)."""
     from . import semq as Q
     for _ in range(64):
@@ -1127,6 +1127,11 @@ def _downcast_source(ev, fn, t, x, gmr_key):
                 key = Q.strip(ev, t[2][1])
                 if Q.is_call(ev, key, "new") and Q.callee_of(ev, key).self_head == A.RESID and ev.targs(key) == [x]:
                     return ("ok", "what the table holds under ResourceId::new::<%s>()" % x)
+                if e is not None and ast_key is not None:
+                    k0 = Q.strip(ev, key, extra=("clone",))
+                    for y in _deep_all(e.path.events):
+                        if y[0] == "call" and y[2].key == ast_key and Q.strip(ev, y[3][0], extra=("clone",)) == k0 and (ev.targs(y[4]) or [None])[:1] == [x]:
+                            return ("ok", "what the table holds under an id asserted for %s (C09.ASSERT)" % x)
                 return ("bad", "the looked-up slot is not the one of %s" % x)
             if c.local:
                 return ("bad", "the value comes out of %s" % c.name)
@@ -1176,7 +1181,8 @@ def downcast_sites(ctx, report, rule, facts, config):
             continue
         done.add(fn.key)
         report.touched(fn, config)
-        ev, ends = Q.sem(ctx, facts, fn, opaque=[gmr.key, A.RESID + "::new"] + _downcasts(facts))
+        astb = facts.one(A.RESID + "::assert_same_type_id")
+        ev, ends = Q.sem(ctx, facts, fn, opaque=[gmr.key, astb.key, A.RESID + "::new"] + _downcasts(facts))
         found = []
         for e in ends:
             for y in _deep_all(e.path.events):
@@ -1185,7 +1191,7 @@ def downcast_sites(ctx, report, rule, facts, config):
                     if len(xs) != 1:
                         found.append(("bad", "the downcast type cannot be read off the call"))
                     else:
-                        found.append(_downcast_source(ev, fn, y[3][0], xs[0], gmr.key))
+                        found.append(_downcast_source(ev, fn, y[3][0], xs[0], gmr.key, e, astb.key))
         bad = sorted(set(r[1] for r in found if r[0] == "bad"))
         needs = [r for r in found if r[0] == "param"]
         oks = sorted(set(r[1] for r in found if r[0] == "ok"))
